@@ -134,6 +134,42 @@ theorem readMatrix_bounds (x y : Nat) : ∀ (cs : List Char) (st : MState) (a b 
             · simp at h
             · exact readMatrix_bounds x y r _ _ _ _ slots ⟨hacc, by intro _ _ he; simp at he⟩ h
 
+/-- `read_matrix_subscript` gives at most `matrixMaxSlots` slots -/
+theorem readMatrix_length (x y : Nat) : ∀ (cs : List Char) (st : MState) (a b : Bool) (acc : List (Nat × Nat))
+    (slots : List (Nat × Nat)), readMatrix x y cs st a b acc = some slots → slots.length ≤ matrixMaxSlots
+  | [], st, a, b, acc, slots, h => by
+    simp only [readMatrix] at h
+    split at h
+    · simp at h
+    · rename_i hc
+      simp at h; subst h
+      simp only [List.length_reverse]
+      rcases Nat.lt_or_ge matrixMaxSlots acc.length with hlt | hge
+      · exact absurd (Or.inr (Or.inr hlt)) hc
+      · exact hge
+  | c :: r, .start, a, b, acc, slots, h => by
+    simp only [readMatrix] at h
+    split at h
+    · exact readMatrix_length x y r _ a b acc slots h
+    · simp at h
+  | c :: r, .opened isM first, a, b, acc, slots, h => by
+    simp only [readMatrix] at h
+    split at h
+    · exact readMatrix_length x y r _ a b acc slots h
+    · split at h
+      · simp at h
+      · cases first with
+        | none => exact readMatrix_length x y r _ a b acc slots h
+        | some fc =>
+          simp only at h
+          cases isM <;> simp only [Bool.false_eq_true, if_false, if_true] at h
+          · split at h
+            · simp at h
+            · exact readMatrix_length x y r _ _ _ _ slots h
+          · split at h
+            · simp at h
+            · exact readMatrix_length x y r _ _ _ _ slots h
+
 theorem memberLookup_get (name : String) : ∀ (ms : List (String × Ty)) (i j : Nat) (t : Ty),
     memberLookup name ms i = some (j, t) → ∃ m, ms[j - i]? = some m ∧ m.2 = t ∧ i ≤ j
   | [], _, _, _, h => by simp [memberLookup] at h
